@@ -1242,8 +1242,26 @@ def merge_triple(gen, cls=None, minor=None, plain_eol=False):
                 "id": c.get("id"), "final_newline": bool(final), "mode": mode}
     elif cls == "minor_diff":
         from .gen_edit import change_minor
-        change_minor(loc, gen)
-        change_minor(rem, gen)
+        mode = r.random()
+        if mode < 0.55:
+            change_minor(loc, gen)
+            change_minor(rem, gen)
+        elif mode < 0.8:
+            # only ONE branch was re-saved by another Jupyter version (a root-level one-sided decision)
+            change_minor(r.choice([loc, rem]), gen)
+        else:
+            # both branches re-saved by the same version (root-level agreement)
+            change_minor(loc, gen)
+            tgt = loc["nbformat_minor"]
+            for _ in range(12):
+                if rem["nbformat_minor"] == tgt:
+                    break
+                rem["nbformat_minor"] = m
+                for c_, b_ in zip(rem["cells"], base["cells"]):
+                    c_.pop("id", None)
+                    if "id" in b_:
+                        c_["id"] = b_["id"]
+                change_minor(rem, gen)
         if r.random() < 0.6:
             loc, _ = mutate(loc, gen, steps=1)
             rem, _ = mutate(rem, gen, steps=1)
